@@ -57,7 +57,7 @@ def coq_case(o):
             break
         ob = obs[k]
         tin = ("{| i_F := %s; i_l1err := %s; i_lpb := %s; i_infoerr := %s; i_l2add := %s; i_isinjerr := %s; i_injecterr := %s |}" % (
-            cN(fnum(i, t)), cbool(t.get("l1_err")), cN(t["lpb"]), cbool(t.get("info_err")),
+            cN(fnum(i, t)), cbool(t.get("l1_err") or t.get("l1_err_once")), cN(t["lpb"]), cbool(t.get("info_err")),
             clist([cnat(x) for x in (t.get("l2_add") or [])]), cbool(t.get("isinj_err")), cbool(t.get("inject_err"))))
         tob = ("{| o_tags := %s; o_inj := %s; o_att := %s; o_err := %s; o_target := %s |}" % (
             clist([cZ(x) for x in (ob.get("tags") or [])]), clist([cNhex(x) for x in (ob.get("inj") or [])]),
